@@ -98,8 +98,97 @@ def run(rep):
     palette_indices(rep, fns)
     mask_shifts(rep, fns)
     eof_progress(rep, fns)
+    scanline_buffers(rep, fns)
     from .p06 import accept_inconclusive
     accept_inconclusive(rep, "c11_inconclusive.json")
+
+
+CH_SIZE = {"unsigned char": 1, "signed char": 1, "char": 1, "unsigned short": 2, "short": 2, "unsigned int": 4, "int": 4, "float": 4, "double": 8,
+           "unsigned long": 8, "long": 8}
+
+
+def pixel_bytes(t):
+    """sizeof of a homogeneous pixel<Channel, layout<mp_list<colours...>, ...>> type string (None for anything else)"""
+    m = re.match(r"(?:const )?boost::gil::pixel<([^,<>]+|boost::gil::scoped_channel_value<float[^>]*>[^,]*), boost::gil::layout<boost::mp11::mp_list<([^<>]*)>", t or "")
+    if not m:
+        return None
+    ch = m.group(1).strip()
+    size = 4 if ch.startswith("boost::gil::scoped_channel_value<float") else CH_SIZE.get(ch)
+    n = len([c for c in m.group(2).split(",") if c.strip()])
+    return size * n if size else None
+
+
+def scanline_buffers(rep, fns):
+    """R7: the tiff strip reader lets libtiff write one whole scanline of the file into its row buffer"""
+    rep.rule("R7 tiff reader::read_stripped_data<Buffer, View>: the row buffer receives a whole file scanline (read_scanline), so it holds at least "
+             "get_scanline_size() bytes: the element count buffer_size<P>() = max(width, ceil(scanline bytes / sizeof(P))) is allocated in elements of the "
+             "buffer's own pixel type E, which needs sizeof(E) >= sizeof(P) -- P must be the buffer's pixel, not the destination view's")
+    seen = {}
+    for f in fns:
+        if not f["name"].endswith("reader::read_stripped_data") or fmt_of(f) != "tiff" or f.get("body") is None:
+            continue
+        P = None
+        for c, _ in R.calls_in(f["body"], lambda n: n.endswith("::buffer_size")):
+            m = re.search(r"::buffer_size<(.*)>$", c["callee"].get("full", ""))
+            if m:
+                P = m.group(1)
+        E = None
+        for d, _ in R.find(f["body"], lambda x: x.get("k") == "Decl"):
+            for dd in d["decls"]:
+                m = re.match(r"__gnu_cxx::__normal_iterator<(boost::gil::pixel<.*>) \*, std::vector<boost::gil::pixel<", dd.get("ctype") or "")
+                if m:
+                    E = m.group(1)
+        if P is None or E is None:
+            continue            # bit-aligned rows are sized in bytes by the other buffer_size overload
+        sp, se = pixel_bytes(P), pixel_bytes(E)
+        key = "R7:tiff:reader::read_stripped_data:row buffer of %s-byte pixels sized in %s-byte pixels" % (se, sp)
+        if key in seen:
+            continue
+        seen[key] = (sp, se, P, E, "%s:%s" % (rel(f), f["line"]))
+    for key, (sp, se, P, E, where) in sorted(seen.items()):
+        rep.count("obligations:R7")
+        if sp is None or se is None:
+            rep.incon("R7-scanline-buffer", key, {"unrecognised": [P[:80], E[:80]]})
+        elif se >= sp:
+            rep.ok("R7-scanline-buffer", key, "bytes allocated >= ceil(scanline/%d)*%d >= scanline" % (sp, se))
+        else:
+            rep.violation("R7-scanline-buffer", key, where, {"buffer element": E[:100], "sized as if it were": P[:100],
+                          "problem": "the buffer has max(width, ceil(scanline/%d)) elements of %d byte(s): fewer bytes than the scanline libtiff writes into it (heap overflow on read_and_convert_image of a narrower pixel type into a wider one, e.g. gray8 -> rgb8)" % (sp, se)})
+    rep.floor("obligations:R7", 2)
+    # R7b: the tile readers decode into a buffer of the file's pixel type
+    rep.rule("R7b tiff reader::read_tiled_data_full / _subimage<Buffer, View>: the buffer the tiles are decoded into has the pixel type of Buffer (the file's "
+             "pixel type chosen by the caller), like read_stripped_data -- not the destination view's, which a converting read would fill with samples of another type")
+    seen = {}
+
+    def px_sig(t):
+        m = re.search(r"boost::gil::pixel<((?:[^,<>]|<[^<>]*>)+), boost::gil::layout<boost::mp11::mp_list<([^<>]*)>", t or "")
+        return (m.group(1).strip(), tuple(c.strip() for c in m.group(2).split(","))) if m else None
+    for f in fns:
+        short = f["name"].split("::")[-1]
+        if short not in ("read_tiled_data_full", "read_tiled_data_subimage") or fmt_of(f) != "tiff" or f.get("body") is None:
+            continue
+        m = re.search(r"::%s<(.*)$" % short, f.get("full", ""))
+        B = px_sig(m.group(1)) if m else None          # the first pixel type mentioned in the template arguments is Buffer's
+        E = None
+        for d, _ in R.find(f["body"], lambda x: x.get("k") == "Decl"):
+            for dd in d["decls"]:
+                mm = re.match(r"__gnu_cxx::__normal_iterator<(boost::gil::pixel<.*>) \*, std::vector<boost::gil::pixel<", dd.get("ctype") or "")
+                if mm:
+                    E = px_sig(mm.group(1))
+        if B is None or E is None:
+            continue
+        key = "R7b:tiff:reader::%s:Buffer %s%s decoded into %s%s" % (short, B[0], list(B[1]), E[0], list(E[1]))
+        key = key.replace("boost::gil::", "")
+        if key not in seen:
+            seen[key] = (B == E, "%s:%s" % (rel(f), f["line"]))
+    for key, (ok, where) in sorted(seen.items()):
+        rep.count("obligations:R7b")
+        if ok:
+            rep.ok("R7-scanline-buffer", key, "tile buffer has Buffer's pixel type")
+        else:
+            rep.violation("R7-scanline-buffer", key, where, {"problem": "the tile buffer is typed after the destination view: read_and_convert_image of a tiled file reinterprets the file's samples as destination pixels "
+                                                             "(tiled gray8 10 -> rgb8 gives (10,0,0)) and the tiled and stripped readers disagree"})
+    rep.floor("obligations:R7b", 4)
 
 
 def array_extent(t):
